@@ -1151,12 +1151,12 @@ func (s *State) evalForSpecialForms(fe *ast.ForExpression) (object.Object, bool)
 	}
 	name := ie.Left.Value().Literal()
 	if ie.Right.Value().Type() == token.COLON {
-		start := s.evalInternal(ie.Right.(*ast.InfixExpression).Left)
+		start := object.Value(s.evalInternal(ie.Right.(*ast.InfixExpression).Left)) // deref: a bound held by an outer variable.
 		startInt, ok := Int64Value(start)
 		if !ok {
 			return s.NewError("for var = n:m n not an integer: " + start.Inspect()), true
 		}
-		end := s.evalInternal(ie.Right.(*ast.InfixExpression).Right)
+		end := object.Value(s.evalInternal(ie.Right.(*ast.InfixExpression).Right))
 		endInt, ok := Int64Value(end)
 		if !ok {
 			return s.NewError("for var = n:m m not an integer: " + end.Inspect()), true
